@@ -458,30 +458,32 @@ Qed.
 Lemma bind_ok_id : forall (r : res (list string)), (do x <- r; Ok x) = r.
 Proof. intros [x|e]; reflexivity. Qed.
 
-(* a quoted string at the start of a token *)
-Lemma tokenize_acc_quoted : forall body fuel rest, body_ok body = true ->
-  tokenize_acc (S fuel) (quoted body ++ rest) "" =
-  do r <- tokenize_acc fuel rest ""; Ok (quoted body :: r).
+(* a quoted string at the start of a token (whatever the previous token) *)
+Lemma tokenize_acc_quoted : forall body fuel rest prev, body_ok body = true ->
+  tokenize_acc (S fuel) (quoted body ++ rest) "" prev =
+  do r <- tokenize_acc fuel rest "" (quoted body); Ok (quoted body :: r).
 Proof.
-  intros body fuel rest H. unfold quoted. cbn [String.append tokenize_acc].
+  intros body fuel rest prev H. unfold quoted. cbn [String.append tokenize_acc].
   change (is_space dq) with false. change (Ascii.eqb dq """"%char) with true. cbv iota.
   rewrite sapp_assoc. cbn [String.append].
   rewrite (tok_string_body body fuel (String dq "") false rest H). rewrite rev_quoted. reflexivity.
 Qed.
 
-(* a plain piece followed by a blank: the tokens of the piece, then the rest with an empty accumulator *)
-Lemma tokenize_acc_prefix : forall s fuel cur rest,
+(* a plain piece followed by a blank: the tokens of the piece, then the rest with an empty accumulator; the previous
+   token for the rest is the last token of the piece *)
+Lemma tokenize_acc_prefix : forall s fuel cur prev rest,
   String.length s < fuel -> plain s = true ->
-  tokenize_acc fuel (s ++ String " " rest) cur =
-  do r <- tokenize_acc (fuel - S (String.length s)) rest ""; Ok (toks (s ++ " ") cur ++ r)%list.
+  tokenize_acc fuel (s ++ String " " rest) cur prev =
+  do r <- tokenize_acc (fuel - S (String.length s)) rest "" (List.last (toks (s ++ " ") cur) prev);
+  Ok (toks (s ++ " ") cur ++ r)%list.
 Proof.
-  induction s as [|c t IH]; intros fuel cur rest Hf Hp.
+  induction s as [|c t IH]; intros fuel cur prev rest Hf Hp.
   - destruct fuel as [|f]; [simpl in Hf; lia|].
     cbn [String.append String.length]. replace (S f - 1) with f by lia.
     cbn [tokenize_acc toks]. change (is_space " ") with true. cbv iota.
     destruct cur as [|d cur'].
-    + cbn [app]. rewrite bind_ok_id. reflexivity.
-    + destruct (tokenize_acc f rest "") as [r|e]; reflexivity.
+    + cbn [app List.last]. rewrite bind_ok_id. reflexivity.
+    + cbv zeta. cbn [List.last]. destruct (tokenize_acc f rest "" _) as [r|e]; reflexivity.
   - destruct fuel as [|f]; [simpl in Hf; lia|]. cbn [String.length] in Hf.
     apply plain_cons in Hp. destruct Hp as [Hq [Hc Hp]].
     assert (Hc' : starts_with "//" (String c t ++ String " " rest) = false).
@@ -492,9 +494,9 @@ Proof.
     destruct (is_space c).
     + destruct cur as [|d cur'].
       * apply IH; [lia|exact Hp].
-      * rewrite IH by (lia || exact Hp).
-        destruct (tokenize_acc (f - S (String.length t)) rest "") as [r|e]; reflexivity.
-    + rewrite Hq, Hc'. apply IH; [lia|exact Hp].
+      * cbv zeta. rewrite IH by (lia || exact Hp). rewrite last_cons_def.
+        destruct (tokenize_acc (f - S (String.length t)) rest "" _) as [r|e]; reflexivity.
+    + rewrite Hq, Hc'. cbn [andb]. apply IH; [lia|exact Hp].
 Qed.
 
 (* tokens: a word (no blank, no double quote, no //) or a quoted string *)
@@ -505,47 +507,186 @@ Inductive tok_ok : string -> Prop :=
 Lemma tok_ok_nonempty : forall t, tok_ok t -> t <> "".
 Proof. intros t [w H|body H]; [apply word_ok_elim in H; tauto|discriminate]. Qed.
 
-Lemma tokenize_acc_word_sp : forall w fuel rest, word_ok w = true -> String.length w < fuel ->
-  tokenize_acc fuel (w ++ String " " rest) "" =
-  do r <- tokenize_acc (fuel - S (String.length w)) rest ""; Ok (w :: r).
+Lemma tokenize_acc_word_sp : forall w fuel rest prev, word_ok w = true -> String.length w < fuel ->
+  tokenize_acc fuel (w ++ String " " rest) "" prev =
+  do r <- tokenize_acc (fuel - S (String.length w)) rest "" w; Ok (w :: r).
 Proof.
-  intros w fuel rest H Hf. apply word_ok_elim in H. destruct H as [Hne [Hns Hp]].
+  intros w fuel rest prev H Hf. apply word_ok_elim in H. destruct H as [Hne [Hns Hp]].
   rewrite tokenize_acc_prefix by assumption.
   change (w ++ " ") with (w ++ " " ++ ""). rewrite toks_word_space by assumption. reflexivity.
 Qed.
-Lemma tokenize_acc_word_end : forall w fuel, word_ok w = true -> String.length w < fuel ->
-  tokenize_acc fuel w "" = Ok [w].
+Lemma tokenize_acc_word_end : forall w fuel prev, word_ok w = true -> String.length w < fuel ->
+  tokenize_acc fuel w "" prev = Ok [w].
 Proof.
-  intros w fuel H Hf. apply word_ok_elim in H. destruct H as [Hne [Hns Hp]].
+  intros w fuel prev H Hf. apply word_ok_elim in H. destruct H as [Hne [Hns Hp]].
   rewrite tokenize_acc_plain by assumption. rewrite toks_single by assumption. reflexivity.
 Qed.
 
 Lemma slength_quoted : forall body, String.length (quoted body) = S (S (String.length body)).
 Proof. intros. unfold quoted. cbn [String.length]. rewrite slength_app. simpl. lia. Qed.
 
-Lemma tokenize_acc_join : forall ts fuel, Forall tok_ok ts -> String.length (join " " ts) < fuel ->
-  tokenize_acc fuel (join " " ts) "" = Ok ts.
+(* ---------------------------------------------------------------------- base64 data tokens
+   After the repair of the tokenizer, "//" does not start a comment inside base64 data: the token after the keywords
+   base64 / b64, and a token that starts with base64( or b64(.  Such a token may contain any number of slashes. *)
+Fixpoint no_dq (s : string) : bool :=
+  match s with EmptyString => true | String c t => negb (Ascii.eqb c dq) && no_dq t end.
+Fixpoint no_slash (s : string) : bool :=
+  match s with EmptyString => true | String c t => negb (Ascii.eqb c "/"%char) && no_slash t end.
+
+Lemma no_dq_app : forall a b, no_dq (a ++ b) = no_dq a && no_dq b.
+Proof. induction a as [|c t IH]; intros b; simpl; [reflexivity|]. rewrite IH. apply andb_assoc. Qed.
+
+(* once the token read so far is base64 data, it stays so *)
+Lemma in_b64_grow : forall prev cur c, in_b64 prev cur = true -> in_b64 prev (String c cur) = true.
 Proof.
-  induction ts as [|x t IH]; intros fuel Hall Hf.
+  intros prev cur c H. unfold in_b64 in *. rewrite rev_string_cons.
+  apply orb_true_iff in H. destruct H as [H|H]; [|rewrite H; apply orb_true_r].
+  apply orb_true_iff in H. unfold starts_with in *.
+  destruct H as [H|H]; rewrite (prefix_app_l _ _ _ H); [reflexivity|rewrite orb_true_r; reflexivity].
+Qed.
+
+Lemma starts_with_not_slash : forall c x, Ascii.eqb c "/"%char = false -> starts_with "//" (String c x) = false.
+Proof.
+  intros c x H. unfold starts_with. cbn [String.prefix]. destruct (ascii_dec "/" c) as [e|_]; [|reflexivity].
+  subst c. discriminate H.
+Qed.
+
+(* scanning the characters of a word (no blank, no double quote) that either has no slash or is base64 data *)
+Lemma tokenize_acc_scan : forall w fuel cur prev rest,
+  no_space w = true -> no_dq w = true -> (no_slash w = true \/ in_b64 prev cur = true) ->
+  String.length w <= fuel ->
+  tokenize_acc fuel (w ++ rest) cur prev = tokenize_acc (fuel - String.length w) rest (rev_string_acc w cur) prev.
+Proof.
+  induction w as [|c t IH]; intros fuel cur prev rest Hs Hq Hd Hf.
+  - cbn [String.append String.length rev_string_acc]. rewrite Nat.sub_0_r. reflexivity.
+  - destruct fuel as [|f]; [simpl in Hf; lia|]. cbn [String.length] in *.
+    cbn [no_space] in Hs. apply andb_true_iff in Hs. destruct Hs as [Hs1 Hs2]. apply negb_true_iff in Hs1.
+    cbn [no_dq] in Hq. apply andb_true_iff in Hq. destruct Hq as [Hq1 Hq2]. apply negb_true_iff in Hq1.
+    cbn [String.append tokenize_acc rev_string_acc]. rewrite Hs1. fold dq. rewrite Hq1.
+    replace (S f - S (String.length t)) with (f - String.length t) by lia.
+    destruct Hd as [Hd|Hd].
+    + cbn [no_slash] in Hd. apply andb_true_iff in Hd. destruct Hd as [Hd1 Hd2]. apply negb_true_iff in Hd1.
+      rewrite (starts_with_not_slash c _ Hd1). cbn [andb]. apply IH; [assumption|assumption|left; exact Hd2|lia].
+    + rewrite Hd. cbn [negb]. rewrite andb_false_r. apply IH; [assumption|assumption|right; apply in_b64_grow; exact Hd|lia].
+Qed.
+
+(* [pre ++ X] is a token of base64 data after the token [prev]: pre = "" after the keywords base64 / b64, or
+   pre = "base64(" / "b64(" ; X is arbitrary (no blank, no double quote) and may contain "//" *)
+Definition b64_word (prev pre X : string) : Prop :=
+  no_space (pre ++ X) = true /\ no_dq (pre ++ X) = true /\ pre ++ X <> "" /\
+  no_slash pre = true /\ in_b64 prev (rev_string pre) = true.
+Definition data_ok (w : string) : bool := negb (w =? "") && no_space w && no_dq w.
+
+Lemma b64_word_data : forall prev w, is_b64_kw prev = true -> data_ok w = true -> b64_word prev "" w.
+Proof.
+  intros prev w Hk H. unfold data_ok in H. apply andb_true_iff in H. destruct H as [H H3].
+  apply andb_true_iff in H. destruct H as [H1 H2]. apply negb_true_iff in H1. apply String.eqb_neq in H1.
+  unfold b64_word. cbn [String.append]. repeat split; try assumption.
+Qed.
+Lemma b64_word_paren : forall prev kw X, kw = "base64(" \/ kw = "b64(" -> no_space X = true -> no_dq X = true ->
+  b64_word prev kw X.
+Proof.
+  intros prev kw X Hk Hs Hq. unfold b64_word. rewrite no_space_app, no_dq_app, Hs, Hq.
+  destruct Hk as [-> | ->]; repeat split; try reflexivity; discriminate.
+Qed.
+(* a word without // is in particular base64 data *)
+Lemma data_ok_of_word : forall w, word_ok w = true -> data_ok w = true.
+Proof.
+  intros w H. apply word_ok_elim in H. destruct H as [Hne [Hs Hp]]. unfold data_ok. rewrite Hs.
+  apply String.eqb_neq in Hne. rewrite Hne. cbn [negb andb].
+  clear Hne Hs. induction w as [|c t IH]; [reflexivity|]. apply plain_cons in Hp. destruct Hp as [Hq [_ Hp]].
+  cbn [no_dq]. fold dq in Hq. rewrite Hq, (IH Hp). reflexivity.
+Qed.
+
+Lemma b64_word_scan : forall prev pre X fuel rest, b64_word prev pre X -> String.length (pre ++ X) <= fuel ->
+  tokenize_acc fuel ((pre ++ X) ++ rest) "" prev =
+  tokenize_acc (fuel - String.length (pre ++ X)) rest (rev_string (pre ++ X)) prev.
+Proof.
+  intros prev pre X fuel rest [Hs [Hq [_ [Hd Hin]]]] Hf.
+  rewrite no_space_app in Hs. apply andb_true_iff in Hs. destruct Hs as [Hs1 Hs2].
+  rewrite no_dq_app in Hq. apply andb_true_iff in Hq. destruct Hq as [Hq1 Hq2].
+  rewrite slength_app in *. rewrite sapp_assoc.
+  rewrite tokenize_acc_scan; [|assumption|assumption|left; exact Hd|lia].
+  rewrite tokenize_acc_scan; [|assumption|assumption|right; exact Hin|lia].
+  rewrite rev_string_app. rewrite (rev_acc_app X). unfold rev_string at 3.
+  replace (fuel - String.length pre - String.length X) with (fuel - (String.length pre + String.length X)) by lia.
+  reflexivity.
+Qed.
+
+Lemma b64_word_strip : forall prev pre X, b64_word prev pre X ->
+  rev_string (pre ++ X) <> "" /\ strip (rev_string (rev_string (pre ++ X))) = pre ++ X.
+Proof.
+  intros prev pre X [Hs [_ [Hne _]]]. split.
+  - intros E. apply rev_string_nil_inv in E. contradiction.
+  - rewrite rev_string_invol. apply strip_no_space. exact Hs.
+Qed.
+
+Lemma tokenize_acc_b64_sp : forall prev pre X fuel rest, b64_word prev pre X -> String.length (pre ++ X) < fuel ->
+  tokenize_acc fuel ((pre ++ X) ++ String " " rest) "" prev =
+  do r <- tokenize_acc (fuel - S (String.length (pre ++ X))) rest "" (pre ++ X); Ok ((pre ++ X) :: r).
+Proof.
+  intros prev pre X fuel rest H Hf. rewrite b64_word_scan by (assumption || lia).
+  destruct (b64_word_strip prev pre X H) as [Hne Hst].
+  destruct (fuel - String.length (pre ++ X)) as [|k] eqn:Ek; [lia|].
+  replace (fuel - S (String.length (pre ++ X))) with k by lia.
+  cbn [tokenize_acc]. change (is_space " ") with true. cbv iota.
+  destruct (rev_string (pre ++ X)) as [|d cur'] eqn:Ec; [congruence|]. cbv zeta. rewrite Hst. reflexivity.
+Qed.
+Lemma tokenize_acc_b64_end : forall prev pre X fuel, b64_word prev pre X -> String.length (pre ++ X) < fuel ->
+  tokenize_acc fuel (pre ++ X) "" prev = Ok [pre ++ X].
+Proof.
+  intros prev pre X fuel H Hf. rewrite <- (sapp_nil_r (pre ++ X)) at 1. rewrite b64_word_scan by (assumption || lia).
+  destruct (b64_word_strip prev pre X H) as [Hne Hst].
+  destruct (fuel - String.length (pre ++ X)) as [|k] eqn:Ek; [lia|].
+  cbn [tokenize_acc].
+  destruct (rev_string (pre ++ X)) as [|d cur'] eqn:Ec; [congruence|]. rewrite Hst. reflexivity.
+Qed.
+
+(* token lists: each token is a word / a quoted string, or base64 data in its context (the token before it) *)
+Inductive tok_ok_after (prev : string) : string -> Prop :=
+| tka_tok : forall t, tok_ok t -> tok_ok_after prev t
+| tka_b64 : forall pre X, b64_word prev pre X -> tok_ok_after prev (pre ++ X).
+Inductive toks_ok_from : string -> list string -> Prop :=
+| tof_nil : forall prev, toks_ok_from prev []
+| tof_cons : forall prev t ts, tok_ok_after prev t -> toks_ok_from t ts -> toks_ok_from prev (t :: ts).
+Definition toks_ok (ts : list string) : Prop := toks_ok_from "" ts.
+
+Lemma toks_ok_from_tok : forall ts prev, Forall tok_ok ts -> toks_ok_from prev ts.
+Proof.
+  induction ts as [|t ts IH]; intros prev H; [constructor|]. inversion H; subst.
+  constructor; [apply tka_tok; assumption|apply IH; assumption].
+Qed.
+
+Lemma tokenize_acc_join_from : forall ts prev fuel, toks_ok_from prev ts -> String.length (join " " ts) < fuel ->
+  tokenize_acc fuel (join " " ts) "" prev = Ok ts.
+Proof.
+  induction ts as [|x t IH]; intros prev fuel Hall Hf.
   - destruct fuel; [simpl in Hf; lia|]. reflexivity.
-  - inversion Hall as [|? ? Hx Ht]; subst. destruct t as [|y t'].
-    + cbn [join] in *. destruct Hx as [w Hw|body Hb].
+  - inversion Hall as [|? ? ? Hx Ht]; subst. destruct t as [|y t'].
+    + cbn [join] in *. destruct Hx as [x [w Hw|body Hb]|pre X Hb].
       * apply tokenize_acc_word_end; assumption.
       * destruct fuel as [|f]; [simpl in Hf; lia|].
-        replace (tokenize_acc (S f) (quoted body) "") with (tokenize_acc (S f) (quoted body ++ "") "")
+        replace (tokenize_acc (S f) (quoted body) "" prev) with (tokenize_acc (S f) (quoted body ++ "") "" prev)
           by (rewrite sapp_nil_r; reflexivity).
         rewrite tokenize_acc_quoted by exact Hb.
         rewrite slength_quoted in Hf. destruct f as [|f']; [lia|]. reflexivity.
+      * apply tokenize_acc_b64_end; assumption.
     + change (join " " (x :: y :: t')) with (x ++ String " " (join " " (y :: t'))) in *.
       rewrite slength_app in Hf. cbn [String.length] in Hf.
-      destruct Hx as [w Hw|body Hb].
+      destruct Hx as [x [w Hw|body Hb]|pre X Hb].
       * rewrite tokenize_acc_word_sp by (assumption || lia).
         rewrite IH by (assumption || lia). reflexivity.
       * destruct fuel as [|f]; [lia|]. rewrite tokenize_acc_quoted by exact Hb.
         rewrite slength_quoted in Hf. destruct f as [|f']; [lia|].
         cbn [tokenize_acc]. change (is_space " ") with true. cbv iota.
         rewrite IH by (assumption || lia). reflexivity.
+      * rewrite tokenize_acc_b64_sp by (assumption || lia).
+        rewrite IH by (assumption || lia). reflexivity.
 Qed.
+
+Lemma tokenize_acc_join : forall ts fuel, Forall tok_ok ts -> String.length (join " " ts) < fuel ->
+  tokenize_acc fuel (join " " ts) "" "" = Ok ts.
+Proof. intros ts fuel H Hf. apply tokenize_acc_join_from; [apply toks_ok_from_tok; exact H|exact Hf]. Qed.
 
 Lemma rstrip'_tok : forall t, tok_ok t -> rstrip' t = t.
 Proof.
@@ -554,32 +695,56 @@ Proof.
   - unfold quoted. change (String dq (body ++ String dq "")) with ((String dq body) ++ String dq "").
     rewrite rstrip'_app_nonblank; [reflexivity|discriminate].
 Qed.
+Lemma lstrip_word_app : forall w r, w <> "" -> no_space w = true -> lstrip (w ++ r) = w ++ r.
+Proof.
+  intros w r Hne Hns. destruct w as [|c w']; [congruence|].
+  simpl in Hns. apply andb_true_iff in Hns. destruct Hns as [Hc _]. apply negb_true_iff in Hc.
+  cbn [String.append lstrip]. rewrite Hc. reflexivity.
+Qed.
 Lemma lstrip_tok_app : forall t r, tok_ok t -> lstrip (t ++ r) = t ++ r.
 Proof.
   intros t r [w H|body H].
-  - apply word_ok_elim in H. destruct H as [Hne [Hns _]]. destruct w as [|c w']; [congruence|].
-    simpl in Hns. apply andb_true_iff in Hns. destruct Hns as [Hc _]. apply negb_true_iff in Hc.
-    cbn [String.append lstrip]. rewrite Hc. reflexivity.
+  - apply word_ok_elim in H. destruct H as [Hne [Hns _]]. apply lstrip_word_app; assumption.
   - reflexivity.
+Qed.
+
+(* what strip needs of a token *)
+Definition tight (t : string) : Prop := t <> "" /\ rstrip' t = t /\ forall r, lstrip (t ++ r) = t ++ r.
+Lemma tight_tok : forall t, tok_ok t -> tight t.
+Proof. intros t H. repeat split; [apply tok_ok_nonempty; exact H|apply rstrip'_tok; exact H|intros r; apply lstrip_tok_app; exact H]. Qed.
+Lemma tight_after : forall prev t, tok_ok_after prev t -> tight t.
+Proof.
+  intros prev t [t' H|pre X [Hs [_ [Hne _]]]]; [apply tight_tok; exact H|].
+  repeat split; [exact Hne|apply rstrip'_no_space; exact Hs|intros r; apply lstrip_word_app; assumption].
+Qed.
+Lemma toks_ok_from_tight : forall ts prev, toks_ok_from prev ts -> Forall tight ts.
+Proof.
+  induction ts as [|t ts IH]; intros prev H; [constructor|]. inversion H; subst.
+  constructor; [eapply tight_after; eassumption|eapply IH; eassumption].
+Qed.
+
+Lemma strip_join_tight : forall ts, Forall tight ts -> strip (join " " ts) = join " " ts.
+Proof.
+  intros ts H. rewrite strip_eq.
+  assert (Hl : lstrip (join " " ts) = join " " ts).
+  { destruct ts as [|x t]; [reflexivity|]. inversion H as [|? ? [_ [_ Hx]] Ht]; subst.
+    destruct t as [|y t'].
+    - cbn [join]. rewrite <- (sapp_nil_r x). apply Hx.
+    - change (join " " (x :: y :: t')) with (x ++ String " " (join " " (y :: t'))). apply Hx. }
+  rewrite Hl. clear Hl. induction ts as [|x t IH]; [reflexivity|].
+  inversion H as [|? ? Hx Ht]; subst. destruct t as [|y t'].
+  - cbn [join]. apply Hx.
+  - change (join " " (x :: y :: t')) with (x ++ String " " (join " " (y :: t'))).
+    assert (Hy : join " " (y :: t') <> "").
+    { apply join_nonempty. inversion Ht as [|? ? Hy' ?]; subst. apply Hy'. }
+    specialize (IH Ht).
+    change (String " " (join " " (y :: t'))) with (" " ++ join " " (y :: t')).
+    rewrite <- sapp_assoc. rewrite rstrip'_app_nonblank; rewrite IH; [reflexivity|exact Hy].
 Qed.
 
 Lemma strip_join_toks : forall ts, Forall tok_ok ts -> strip (join " " ts) = join " " ts.
 Proof.
-  intros ts H. rewrite strip_eq.
-  assert (Hl : lstrip (join " " ts) = join " " ts).
-  { destruct ts as [|x t]; [reflexivity|]. inversion H as [|? ? Hx Ht]; subst.
-    destruct t as [|y t'].
-    - cbn [join]. rewrite <- (sapp_nil_r x). apply lstrip_tok_app. exact Hx.
-    - change (join " " (x :: y :: t')) with (x ++ String " " (join " " (y :: t'))). apply lstrip_tok_app. exact Hx. }
-  rewrite Hl. clear Hl. induction ts as [|x t IH]; [reflexivity|].
-  inversion H as [|? ? Hx Ht]; subst. destruct t as [|y t'].
-  - cbn [join]. apply rstrip'_tok. exact Hx.
-  - change (join " " (x :: y :: t')) with (x ++ String " " (join " " (y :: t'))).
-    assert (Hy : join " " (y :: t') <> "").
-    { apply join_nonempty. inversion Ht; subst. apply tok_ok_nonempty. assumption. }
-    specialize (IH Ht).
-    change (String " " (join " " (y :: t'))) with (" " ++ join " " (y :: t')).
-    rewrite <- sapp_assoc. rewrite rstrip'_app_nonblank; rewrite IH; [reflexivity|exact Hy].
+  intros ts H. apply strip_join_tight. eapply toks_ok_from_tight. apply (toks_ok_from_tok ts "" H).
 Qed.
 
 (* generalises ParseLemmas.tokenize_words to lines with string literals *)
@@ -587,6 +752,12 @@ Theorem tokenize_toks : forall ts, Forall tok_ok ts -> tokenize (join " " ts) = 
 Proof.
   intros ts H. unfold tokenize. rewrite strip_join_toks by exact H.
   apply tokenize_acc_join; [exact H|lia].
+Qed.
+(* ... and to lines with base64 data (which may contain "//") *)
+Theorem tokenize_toks_b64 : forall ts, toks_ok ts -> tokenize (join " " ts) = Ok ts.
+Proof.
+  intros ts H. unfold tokenize. rewrite strip_join_tight by (eapply toks_ok_from_tight; exact H).
+  apply tokenize_acc_join_from; [exact H|lia].
 Qed.
 
 Lemma tok_not_comment : forall t, tok_ok t -> starts_with "//" t = false.
@@ -606,6 +777,34 @@ Proof.
   assert (Hl : starts_with "//" (List.last ts "") = false).
   { apply tok_not_comment. rewrite Forall_forall in H. apply H. apply last_In. exact Hne. }
   rewrite Hl. reflexivity.
+Qed.
+
+(* a last token that starts with "//" is base64 data after base64 / b64: it is not removed as a comment *)
+Lemma toks_ok_last_comment : forall ts prev, toks_ok_from prev ts -> ts <> [] ->
+  starts_with "//" (List.last ts "") = true -> is_b64_kw (List.last (but_last ts) prev) = true.
+Proof.
+  induction ts as [|x t IH]; intros prev H Hne Hc; [congruence|]. inversion H as [|? ? ? Hx Ht]; subst.
+  destruct t as [|y t'].
+  - cbn [List.last but_last] in *. destruct Hx as [x Hx|pre X [_ [_ [_ [Hd Hin]]]]].
+    + rewrite (tok_not_comment x Hx) in Hc. discriminate Hc.
+    + destruct pre as [|c pre']; [exact Hin|]. exfalso.
+      cbn [no_slash] in Hd. apply andb_true_iff in Hd. destruct Hd as [Hd _]. apply negb_true_iff in Hd.
+      cbn [String.append] in Hc. rewrite (starts_with_not_slash c _ Hd) in Hc. discriminate Hc.
+  - change (List.last (x :: y :: t') "") with (List.last (y :: t') "") in Hc.
+    change (but_last (x :: y :: t')) with (x :: but_last (y :: t')). rewrite last_cons_def.
+    apply IH; [exact Ht|discriminate|exact Hc].
+Qed.
+
+Theorem parse_line_toks_b64 : forall ts, ts <> [] -> toks_ok ts -> parse_line (join " " ts) = parse_fields ts.
+Proof.
+  intros ts Hne H. rewrite parse_line_unfold.
+  rewrite strip_join_tight by (eapply toks_ok_from_tight; exact H).
+  assert (Hj : join " " ts =? "" = false).
+  { apply String.eqb_neq. destruct ts as [|x t]; [congruence|]. apply join_nonempty.
+    inversion H as [|? ? ? Hx ?]; subst. apply (tight_after _ _ Hx). }
+  rewrite Hj, tokenize_toks_b64 by exact H. cbn [bind]. unfold strip_comment.
+  destruct (starts_with "//" (List.last ts "")) eqn:Hl; [|reflexivity].
+  rewrite in_b64_nil, (toks_ok_last_comment ts "" H Hne Hl). reflexivity.
 Qed.
 
 (* after the repair of the tokenizer (a backslash escapes the next character): the closing quote after an ESCAPED
@@ -784,6 +983,25 @@ Proof.
   - constructor; [apply tok_word, bytes1_kw_word; exact Hk|exact Ht].
 Qed.
 
+(* the same with base64 data among the tokens (which may contain "//"): each token is judged after the one before it,
+   the first one after the mnemonic *)
+Lemma toks_ok_kw : forall kw ts, word_ok kw = true -> toks_ok_from kw ts -> toks_ok (kw :: ts).
+Proof. intros kw ts Hk Ht. constructor; [apply tka_tok, tok_word; exact Hk|exact Ht]. Qed.
+Theorem parse_bytes1_b64 : forall kw ts b, bytes1_kw kw -> toks_ok_from kw ts -> byte_forms ts [b] ->
+  parse_line (join " " (kw :: ts)) = Ok (Some (IOther (bytes_cls kw) [PStr b])).
+Proof.
+  intros kw ts b Hk Ht Hf. rewrite parse_line_toks_b64; [|discriminate|].
+  - apply parse_fields_bytes1; assumption.
+  - apply toks_ok_kw; [apply bytes1_kw_word; exact Hk|exact Ht].
+Qed.
+Theorem parse_bytesn_b64 : forall kw ts vs, bytesn_kw kw -> toks_ok_from kw ts -> byte_forms ts vs ->
+  parse_line (join " " (kw :: ts)) = Ok (Some (IOther (bytesn_cls kw) [PStrs vs])).
+Proof.
+  intros kw ts vs Hk Ht Hf. rewrite parse_line_toks_b64; [|discriminate|].
+  - apply parse_fields_bytesn; assumption.
+  - apply toks_ok_kw; [apply bytesn_kw_word; exact Hk|exact Ht].
+Qed.
+
 (* --- words for the parenthesised spellings *)
 Lemma no_space_cons : forall c s, is_space c = false -> no_space s = true -> no_space (String c s) = true.
 Proof. intros c s Hc Hs. simpl. rewrite Hc, Hs. reflexivity. Qed.
@@ -867,6 +1085,26 @@ Section OneLiteral.
     intros sp X Hsp Hw. apply (parse_bytes1 kw [sp ++ X ++ ")"] (b32_decode X) Hkw).
     - constructor; [apply tok_word, word_ok_paren; [tauto|exact Hw]|constructor].
     - apply bf_b32p; [exact Hsp|constructor].
+  Qed.
+  (* the base64 spellings with ARBITRARY data (no blank, no double quote): the data may contain "/" and "//" *)
+  Theorem parse_bytes_base64_data : forall sp X, sp = "base64" \/ sp = "b64" -> data_ok X = true ->
+    parse_line (kw ++ " " ++ sp ++ " " ++ X) = Ok (Some (IOther (bytes_cls kw) [PStr (b64_decode X)])).
+  Proof.
+    intros sp X Hsp Hw. apply (parse_bytes1_b64 kw [sp; X] (b64_decode X) Hkw).
+    - constructor; [apply tka_tok, tok_word; destruct Hsp as [-> | ->]; reflexivity|].
+      constructor; [|constructor].
+      apply (tka_b64 sp "" X). apply b64_word_data; [destruct Hsp as [-> | ->]; reflexivity|exact Hw].
+    - apply bf_b64; [exact Hsp|constructor].
+  Qed.
+  Theorem parse_bytes_base64_paren_data : forall sp X, sp = "base64(" \/ sp = "b64(" ->
+    no_space X = true -> no_dq X = true ->
+    parse_line (kw ++ " " ++ sp ++ X ++ ")") = Ok (Some (IOther (bytes_cls kw) [PStr (b64_decode X)])).
+  Proof.
+    intros sp X Hsp Hs Hq. apply (parse_bytes1_b64 kw [sp ++ X ++ ")"] (b64_decode X) Hkw).
+    - constructor; [|constructor]. apply tka_b64. apply b64_word_paren; [exact Hsp| |].
+      + rewrite no_space_app, Hs. reflexivity.
+      + rewrite no_dq_app, Hq. reflexivity.
+    - apply bf_b64p; [exact Hsp|constructor].
   Qed.
 End OneLiteral.
 
@@ -1188,10 +1426,11 @@ Proof.
   intros l f0 rest Hp Ht Hh Hr. rewrite parse_line_plain by exact Hp. rewrite Ht. apply unknown_fields; assumption.
 Qed.
 (* ... and a trailing comment is dropped *)
-Corollary unknown_plain_comment : forall l c f0 rest, plain l = true -> toks (strip l) "" = f0 :: rest ->
+Corollary unknown_plain_comment : forall l c f0 rest, plain l = true -> last_tok_b64 l = false ->
+  toks (strip l) "" = f0 :: rest ->
   head_generic f0 = true -> first_rule (join " " (f0 :: rest)) parser_rules = None ->
   parse_line (l ++ " // " ++ c) = Ok (Some (IOther "UnsupportedInstruction" [PStr (join " " (f0 :: rest))])).
-Proof. intros l c f0 rest Hp Ht Hh Hr. rewrite parse_line_comment by exact Hp. eapply unknown_plain; eauto. Qed.
+Proof. intros l c f0 rest Hp Hb Ht Hh Hr. rewrite parse_line_comment by assumption. eapply unknown_plain; eauto. Qed.
 
 (* printing: the text prefixed by the marker UNSUPPORTED *)
 Theorem str_unsupported : forall t,
@@ -1355,6 +1594,12 @@ Print Assumptions arr_field_txt_is_cls.
 Print Assumptions array_index_spellings.
 Print Assumptions array_forms_unchecked.
 Print Assumptions tokenize_toks.
+Print Assumptions tokenize_toks_b64.
+Print Assumptions parse_line_toks_b64.
+Print Assumptions parse_bytes1_b64.
+Print Assumptions parse_bytesn_b64.
+Print Assumptions parse_bytes_base64_data.
+Print Assumptions parse_bytes_base64_paren_data.
 Print Assumptions parse_line_toks.
 Print Assumptions quoted_backslash_accepted.
 Print Assumptions quoted_escapes.
